@@ -189,14 +189,14 @@ def check_net(res, model, species_names, rng, tag, render=False):
                 if got != canon_m(m_mat[i * n + j]):
                     res.corr_disagreements += 1
                     res.violation("correspondence", f"matrix entry ({i},{j}): implementation {mt[i][j]} vs model {m_mat[i * n + j]}", case)
-                    return
+                    break          # the oracle below then looks for an input on which the property fails
         for k, s in enumerate(species):
             want = None if m_fac[k] == "one" else canon_f(m_fac[k])
             got = None if ft[k] is None else [(Fraction(a), en, Fraction(d)) for a, en, d in ft[k]]
             if got != want:
                 res.corr_disagreements += 1
                 res.violation("correspondence", f"factor of {s.name}: implementation {ft[k]} vs model {m_fac[k]}", case)
-                return
+                break
     # ---- oracle, channel A
     check_renorm(res, "generator", case, species, elements, mt, ft, rng, known)
     # ---- channel B
